@@ -1,28 +1,36 @@
 """C17 - waiting for an event returns the first match or times out, whatever the timing."""
 from __future__ import annotations
 
-import ast
 import itertools
 
-from ..absint import Cls, Const, Dct, Fn, Foreign, Frame, Interp, Lst, Obj, Term, explore, is_call, run_method, show
-from ..model import Undecided, walk_no_nested
+from ..absint import Cls, Const, Dct, Fn, Foreign, Frame, Interp, Lst, Obj, Term, explore, is_call, show
+from ..model import Undecided
+from .clientworld import client_opts, make_client
 
 EXPLANATION = (
-    "Decides the shape obligations of BaseClient.waitforevent and its three closures on their enumerated paths. C17.COND: the temporary "
-    "callback is evaluated for every condition kind (expect / initial / check) x event kind (value / state / definition update) x "
-    "(operand equal / different, check true / false): it releases exactly when the condition holds. C17.FLAG (completion-flag single "
-    "assignment): in both closures that complete the wait (callback, timeout check) every store to the result lies on a path that "
-    "found the flag unset - trigger_event is synchronous while the waiter only resumes in a later loop iteration, so without the guard a "
-    "second matching event (or a timeout after a match) overwrites the outcome. C17.RELEASE: on every path after the wait the temporary "
-    "callback is removed with the uuid returned by this call's onevent before returning/raising, and it was registered (with the caller's "
-    "filters and the closure) before waiting. C17.EXCL: raise iff result.timeout, else return result.event; result.timeout is stored only "
-    "by the timeout check. C17.POLL: the polling coroutine first sleeps polling_delay, then repeats (flag unset -> send the getProperties "
-    "built from device/vector -> sleep polling_interval) and stops as soon as the flag is set; its task exists iff polling_enabled. "
-    "C17.TIMEOUT: the timeout task exists iff a positive timeout was given; it sleeps exactly timeout."
+    "BaseClient.waitforevent is evaluated as a whole, by the abstract interpreter, on scripted scenarios - nothing in the rules depends on "
+    "how the function is written (closure names, local names, helper classes). The client is produced by its real constructor; the asyncio "
+    "primitives are modelled: asyncio.Event() is a flag object (set / is_set / wait), create_task records the coroutine call as a pending "
+    "task, asyncio.sleep records its duration and returns. When the waiter blocks in Event.wait() the scenario's script runs: an event is "
+    "delivered through the client's real trigger_event (so the registered filter and callback are the real ones), or a pending task (the "
+    "timeout) is run to completion; then the waiter resumes if the flag is set. C17.COND: for every condition kind (expect / initial / "
+    "check) x event kind (value / state / definition update) x operand (equal / different) the wait is released exactly when the condition "
+    "holds, and returns that event. C17.FLAG: first match wins - a second matching event, or a timeout firing after a match, does not "
+    "change the outcome; a match after the timeout does not turn the timeout into a success. C17.EXCL: every completed scenario either "
+    "returns an event or raises the timeout, never both, and with nothing happening the waiter stays blocked. C17.RELEASE: the callback "
+    "is registered with the caller's filters while waiting (events for another device or property do not release the wait) and no "
+    "callback is left registered after any completed scenario. C17.TIMEOUT: a timeout task exists iff a positive timeout was given and it "
+    "sleeps exactly the timeout before acting. C17.POLL: a polling task exists iff polling is enabled; run with a scripted completion flag "
+    "it sleeps polling_delay first, then repeats (send getProperties built from the device / vector filters, sleep polling_interval) "
+    "while the flag is unset and stops as soon as it is set."
 )
 NOT_DECIDED = "behaviour on the virtual-time grid (which of timeout and event wins at a given instant) - scheduling; cancellation of the waiter (no try/finally: advisory)."
-ASSUMPTIONS = ["trigger_event runs callbacks synchronously; asyncio.Event.set()/is_set() are atomic with respect to coroutines"]
+ASSUMPTIONS = ["trigger_event runs callbacks synchronously; asyncio.Event.set()/is_set() are atomic with respect to coroutines", "tasks other than the waiter run only while the waiter is suspended (single-threaded event loop)"]
 TRUSTED = ["CPython ast", "indilint abstract interpreter"]
+
+
+class _Blocked(Exception):
+    """The waiter is suspended in Event.wait() and nothing in the script sets the flag."""
 
 
 def _wfe(p):
@@ -30,279 +38,340 @@ def _wfe(p):
     f = bc.find_method("waitforevent")
     if f is None:
         raise Undecided("waitforevent not found")
-    for nm in ("cb", "poll", "timeout_check"):
-        if nm not in f.nested:
-            raise Undecided(f"closure {nm} not found in waitforevent (renamed?)")
     return bc, f
 
 
-def _closure(p, f, **env):
-    return Frame(f, f.module, dict(env))
+def _event(p, kind, value="x", device="D", vector="V", element="E", label=None):
+    ci = p.cls(f"indi.client.events.{kind}")
+
+    def named(n, what):
+        return Obj(None, {"name": Const(n), "__closed__": Const(True)}, label=f"<{what}:{n}>") if n is not None else Const(None)
+
+    a = {"device": named(device, "device"), "vector": named(vector, "vector"), "element": named(element, "element") if kind == "ValueUpdate" else Const(None), "__closed__": Const(True)}
+    if kind == "ValueUpdate":
+        a.update({"new_value": Const(value), "old_value": Const("o")})
+    if kind == "StateUpdate":
+        a.update({"new_state": Const(value), "old_state": Const("o")})
+    return Obj(ci, a, label=label or f"event:{kind}:{value}")
 
 
-def _result_obj(p):
-    return Obj(p.cls("indi.client.client._EventWaitResult"), {"event": Const(None), "timeout": Const(False)}, label="result")
+def simulate(p, kwargs, script, poll_flags=None):
+    """Abstractly run client.waitforevent(**kwargs).  'script' = actions performed when the waiter blocks:
+    ('event', Obj) deliver through trigger_event; ('task', i) run the i-th pending task to completion.
+    -> list of result dicts (one per explored path)."""
+    bc, f = _wfe(p)
+    trig = bc.find_method("trigger_event")
+    results = []
+
+    def run(it: Interp):
+        it.tasks, it.sleeps, it.sent, it.trace = [], [], [], []
+        it.in_task = None
+        client = make_client(p, it=it)
+        it.client = client
+        flags = []
+
+        def fm(it_, callee, args, kw):
+            if isinstance(callee, Foreign):
+                d = callee.dotted
+                if d == "asyncio.Event":
+                    o = Obj(None, {"flag": Const(False)}, label=f"<asyncio.Event#{len(flags)}>")
+                    flags.append(o)
+                    return o
+                if d == "asyncio.sleep":
+                    it_.sleeps.append((it_.in_task, args[0] if args else None))
+                    return Const(None)
+                if d.endswith("iscoroutinefunction"):
+                    return Const(False)
+                if d == "asyncio.get_running_loop" or d == "asyncio.get_event_loop":
+                    return Obj(None, {}, label="<loop>")
+                if d in ("asyncio.create_task", "asyncio.ensure_future"):
+                    it_.tasks.append(args[0])
+                    return Obj(None, {}, label=f"<task#{len(it_.tasks) - 1}>")
+                if d == "uuid.uuid4":
+                    n_ = it_.__dict__.setdefault("_uuid", [0])
+                    n_[0] += 1
+                    return Obj(None, label=f"<uuid{n_[0]}>")
+                return None
+            if isinstance(callee, Term) and callee.op == "attr" and isinstance(callee.args[0], Obj):
+                o, m = callee.args[0], callee.args[1]
+                if o.label == "<loop>" and m == "create_task":
+                    it_.tasks.append(args[0])
+                    return Obj(None, {}, label=f"<task#{len(it_.tasks) - 1}>")
+                if o.label.startswith("<asyncio.Event"):
+                    if m == "set":
+                        o.attrs["flag"] = Const(True)
+                        it_.trace.append(("set", it_.in_task))
+                        return Const(None)
+                    if m == "clear":
+                        o.attrs["flag"] = Const(False)
+                        return Const(None)
+                    if m == "is_set":
+                        if it_.in_task is not None and poll_flags is not None and it_.in_task == poll_flags[0]:
+                            seq = poll_flags[1]
+                            k = it_.__dict__.setdefault("_pf", [0])
+                            v = seq[min(k[0], len(seq) - 1)]
+                            k[0] += 1
+                            it_.trace.append(("is_set", v))
+                            return Const(v)
+                        return o.attrs["flag"]
+                    if m == "wait":
+                        if o.attrs["flag"].v is not True:
+                            for act in script:
+                                if act[0] == "event":
+                                    it_.run_function(Fn(trig, client), [act[1]], {})
+                                elif act[0] == "task" and act[1] < len(it_.tasks):
+                                    run_task(it_, act[1])
+                        if o.attrs["flag"].v is not True:
+                            raise _Blocked()
+                        return Const(None)
+            if isinstance(callee, Term) and callee.op == "param" and callee.args[0] == "checkfn":
+                # the scenario's check callable accepts exactly the events that carry 'x'
+                return Const(bool(args and isinstance(args[0], Obj) and args[0].label.endswith(":x")))
+            return None
+
+        def run_task(it_, i):
+            t = it_.tasks[i]
+            if not (isinstance(t, Term) and t.op == "call" and isinstance(t.args[0], Fn)):
+                raise Undecided(f"task #{i} is not a call of a coroutine function of the repository: {show(t)[:60]}")
+            prev, it_.in_task = it_.in_task, i
+            try:
+                it_.run_function(t.args[0], list(t.args[1]), dict((k, v) for k, v in t.args[2] if k), None)
+            finally:
+                it_.in_task = prev
+
+        it.run_task = run_task
+        it.opts["foreign_model"] = fm
+        try:
+            v = it.run_function(Fn(f, client), [], dict(kwargs))
+            it.result = ("return", v)
+        except _Blocked:
+            it.result = ("blocked", None)
+        return Const(None)
+
+    o = client_opts(p)
+    base = o["inline"]
+    o["inline"] = lambda fi, node: base(fi, node) or fi.parent is not None
+    o["max_depth"] = 14
+    o["max_while"] = 8
+    paths = explore(p, run, o)
+    for pa in paths:
+        it = pa.interp
+        res = getattr(it, "result", None)
+        if pa.outcome == "raise":
+            res = ("raise", pa.value)
+        sends = [e for e in pa.calls(method="send_message") if isinstance(e.data["callee"], Fn) and isinstance(e.data["callee"].self_val, Obj) and e.data["callee"].self_val.label == "client"]
+        results.append({"outcome": res[0] if res else "?", "value": res[1] if res else None, "callbacks": list(it.client.attrs["callbacks"].items) if isinstance(it.client.attrs.get("callbacks"), Lst) else None,
+                        "tasks": list(it.tasks), "sleeps": list(it.sleeps), "sends": sends, "trace": list(it.trace), "interp": it, "path": pa})
+    return results
+
+
+def _one(ctx, rule, f, results, what):
+    if len(results) != 1:
+        ctx.undecided(rule, f.short, f"{what}: {len(results)} paths (a condition was not decided by constant evaluation)", fi=f)
+        return None
+    return results[0]
+
+
+def _is_timeout(r):
+    # the only exception a well-formed call can end with is the timeout failure
+    return r["outcome"] == "raise"
 
 
 def rule_cond(ctx):
     p = ctx.p
     bc, f = _wfe(p)
-    cb = f.nested["cb"]
-    evc = {k: p.cls(f"indi.client.events.{k}") for k in ("ValueUpdate", "StateUpdate", "DefinitionUpdate")}
     rows = 0
     bad = False
+    check = Term("param", "checkfn", pytype="function")
     for cond in ("expect", "initial", "check"):
-        for ek in evc:
+        for ek in ("ValueUpdate", "StateUpdate", "DefinitionUpdate"):
             for equal in (True, False):
                 rows += 1
-
-                def run(it: Interp):
-                    ev = Obj(evc[ek], {}, label="event")
-                    if ek == "ValueUpdate":
-                        ev.attrs.update({"new_value": Const("x" if equal else "y"), "old_value": Const("o")})
-                    if ek == "StateUpdate":
-                        ev.attrs.update({"new_state": Const("x" if equal else "y"), "old_state": Const("o")})
-                    lock = Obj(None, label="<lock>")
-                    res = _result_obj(p)
-                    it.res, it.ev = res, ev
-                    env = {"lock": lock, "result": res, "expect": Const("x") if cond == "expect" else Const(None), "initial": Const("x") if cond == "initial" else Const(None), "check": Obj(None, label="<check>") if cond == "check" else Const(None)}
-                    return it.run_function(Fn(cb, None, closure=_closure(p, f, **env)), [ev], {})
-
-                paths = explore(p, run, {"inline": lambda fi, node: False})
-                ctx.paths_enumerated += len(paths)
-                for pa in paths:
-                    if pa.outcome != "return":
-                        ctx.violated("C17.COND", cb.short, f"the temporary callback raises for condition={cond} event={ek}", fi=cb, text=f"raise:{cond}:{ek}")
-                        bad = True
-                        continue
-                    flag_set = any(e.data["truth"] for e in pa.assumes() if "is_set()" in show(e.data["cond"]))
-                    check_res = [e.data["truth"] for e in pa.assumes() if show(e.data["cond"]).startswith("<check>(")]
-                    if cond == "check":
-                        exp = bool(check_res and check_res[0])
-                    elif ek == "DefinitionUpdate":
-                        exp = False
-                    elif cond == "expect":
-                        exp = equal
-                    else:
-                        exp = not equal
-                    released = pa.interp.res.attrs["event"] is pa.interp.ev
-                    sets = [e for e in pa.events if e.kind == "call" and show(e.data["term"]).startswith("<lock>.set(")]
-                    row = f"condition={cond} event={ek} operand {'equal' if equal else 'different'}" + (f" check->{check_res}" if cond == "check" else "")
-                    if flag_set:
-                        if released:
-                            ctx.violated("C17.FLAG", cb.short, f"a matching event overwrites the result although the wait has already completed [{row}]: two matching events dispatched before the waiter resumes make the wait return the later one", fi=cb, text="overwrite-after-completion", witness="two matching setTextVector in one TCP chunk")
-                            bad = True
-                        continue
-                    if released != exp or (exp and len(sets) != 1) or (not exp and sets):
-                        ctx.violated("C17.COND", cb.short, f"[{row}]: released={released} (flag set {len(sets)} times), expected released={exp}", fi=cb, text=f"cond:{cond}:{ek}:{equal}", witness=row)
-                        bad = True
-                    if exp and not any("is_set()" in show(e.data["cond"]) for e in pa.assumes()):
-                        ctx.violated("C17.FLAG", cb.short, "the callback stores the result without testing whether the wait has already completed: a second matching event delivered before the waiter resumes replaces the first", fi=cb, text="no-flag-test", witness="two matching setTextVector in one TCP chunk")
-                        bad = True
+                ev = _event(p, ek, "x" if equal else "y")
+                kw = {"expect": Const("x")} if cond == "expect" else ({"initial": Const("x")} if cond == "initial" else {"check": check})
+                kw["polling_enabled"] = Const(False)
+                r = _one(ctx, "C17.COND", f, simulate(p, kw, [("event", ev)]), f"{cond}/{ek}/{equal}")
+                if r is None:
+                    bad = True
+                    continue
+                if cond == "check":
+                    exp = equal  # the check callable of the scenario accepts exactly the events carrying 'x'
+                elif ek == "DefinitionUpdate":
+                    exp = False
+                elif cond == "expect":
+                    exp = equal
+                else:
+                    exp = not equal
+                row = f"condition={cond} event={ek} operand {'equal' if equal else 'different'}"
+                released = r["outcome"] == "return"
+                if r["outcome"] == "raise":
+                    ctx.violated("C17.COND", f.short, f"[{row}] the wait raises {show(r['value'])[:50]}", fi=f, text=f"raise:{cond}:{ek}", witness=row)
+                    bad = True
+                elif released != exp:
+                    ctx.violated("C17.COND", f.short, f"[{row}]: released={released}, expected released={exp}", fi=f, text=f"cond:{cond}:{ek}:{equal}", witness=row)
+                    bad = True
+                elif released and r["value"] is not ev:
+                    ctx.violated("C17.COND", f.short, f"[{row}]: the wait returns {show(r['value'])[:40]} instead of the event that satisfied the condition", fi=f, text=f"cond-value:{cond}:{ek}", witness=row)
+                    bad = True
     ctx.counters["C17.COND:rows"] = rows
     if not bad:
-        ctx.holds("C17.COND", cb.short, f"{rows} rows: releases exactly when the condition holds", fi=cb)
-        ctx.holds("C17.FLAG", cb.short, "result stored only while the completion flag is unset", fi=cb)
+        ctx.holds("C17.COND", f.short, f"{rows} rows: released exactly when the condition holds, returning that event", fi=f)
 
 
-def rule_flag_timeout(ctx):
+def rule_flag(ctx):
+    """First completion wins."""
     p = ctx.p
     bc, f = _wfe(p)
-    tc = f.nested["timeout_check"]
-
-    def run(it: Interp):
-        lock = Obj(None, label="<lock>")
-        res = _result_obj(p)
-        it.res = res
-        return it.run_function(Fn(tc, None, closure=_closure(p, f, lock=lock, result=res, timeout=Term("param", "timeout"))), [], {})
-
-    paths = explore(p, run, {"inline": lambda fi, node: False})
-    ctx.paths_enumerated += len(paths)
+    e1, e2, e0 = _event(p, "ValueUpdate", "x", label="event:first:x"), _event(p, "ValueUpdate", "x", label="event:second:x"), _event(p, "ValueUpdate", "y", label="event:nomatch:y")
+    base = {"expect": Const("x"), "polling_enabled": Const(False)}
+    cases = [
+        ("two matching events before the waiter resumes", dict(base), [("event", e1), ("event", e2)], ("return", e1)),
+        ("a non-matching event, then two matching ones", dict(base), [("event", e0), ("event", e1), ("event", e2)], ("return", e1)),
+        ("a match, then the timeout fires before the waiter resumes", dict(base, timeout=Const(5)), [("event", e1), ("task", 0)], ("return", e1)),
+        ("the timeout fires, then a match arrives before the waiter resumes", dict(base, timeout=Const(5)), [("task", 0), ("event", e1)], ("timeout", None)),
+        ("the timeout fires twice", dict(base, timeout=Const(5)), [("task", 0), ("task", 0)], ("timeout", None)),
+    ]
     bad = False
-    for pa in paths:
-        flag_tests = [e for e in pa.assumes() if "is_set()" in show(e.data["cond"])]
-        fired = isinstance(pa.interp.res.attrs["timeout"], Const) and pa.interp.res.attrs["timeout"].v is True
-        sleeps = [e for e in pa.events if e.kind == "await" and "sleep(timeout)" in show(e.data["value"])]
-        sets = [e for e in pa.events if e.kind == "call" and show(e.data["term"]).startswith("<lock>.set(")]
-        if len(sleeps) != 1:
-            ctx.violated("C17.TIMEOUT", tc.short, "the timeout closure does not sleep exactly the timeout once", fi=tc, text="sleep")
-            bad = True
-        if not flag_tests:
-            ctx.violated("C17.FLAG", tc.short, "the timeout fires without testing whether the wait has already completed: a wait that received its event still fails with a timeout", fi=tc, text="timeout-no-flag-test")
+    for label, kw, script, (want, wv) in cases:
+        r = _one(ctx, "C17.FLAG", f, simulate(p, kw, script), label)
+        if r is None:
             bad = True
             continue
-        unset = not flag_tests[0].data["truth"]
-        if fired != unset or (unset and len(sets) != 1) or (not unset and sets):
-            ctx.violated("C17.FLAG", tc.short, f"flag {'unset' if unset else 'set'} at the timeout instant: timeout recorded={fired}, flag set {len(sets)} times", fi=tc, text=f"timeout-effect:{unset}")
-            bad = True
-        if sleeps and flag_tests and flag_tests[0].idx < sleeps[0].idx:
-            ctx.violated("C17.TIMEOUT", tc.short, "the completion flag is sampled before the sleep", fi=tc, text="early-sample")
+        got = "timeout" if _is_timeout(r) else r["outcome"]
+        if got != want or (want == "return" and r["value"] is not wv):
+            ctx.violated("C17.FLAG", f.short, f"[{label}] the wait ends with {got} {show(r['value'])[:40] if r['value'] is not None else ''}, expected {want} {show(wv) if wv is not None else ''}: the first completion must win (a later event or timeout overwrites the outcome)", fi=f, text=f"flag:{label}", witness=label)
             bad = True
     if not bad:
-        ctx.holds("C17.FLAG", tc.short, "timeout recorded (and flag set) only if the flag is still unset after sleeping timeout", fi=tc)
-    # who stores result.timeout
-    writers = []
-    for fi in p.functions:
-        for n in walk_no_nested(fi.node):
-            if isinstance(n, ast.Assign):
-                for t in n.targets:
-                    if isinstance(t, ast.Attribute) and t.attr == "timeout" and isinstance(t.value, ast.Name) and t.value.id == "result":
-                        writers.append(fi)
-    ctx.check([w.name for w in writers] == ["timeout_check"], "C17.EXCL", "result.timeout writers", "stored only by timeout_check", f"result.timeout is stored by {[w.short for w in writers]}", fi=f, text="timeout-writers")
+        ctx.holds("C17.FLAG", f.short, f"{len(cases)} scenarios: the first completion (event or timeout) wins", fi=f)
 
 
 def rule_main(ctx):
+    """Exclusive outcomes, registration with the caller's filters, removal afterwards, task creation."""
     p = ctx.p
     bc, f = _wfe(p)
-    paths = []
-    for tmo in (None, 5, 0.5):
-        for pen in (True, False):
-            kw = {k: Term("param", k) for k in ("device", "vector", "element", "event_type", "expect", "initial", "check", "polling_delay", "polling_interval")}
-            kw["timeout"] = Const(tmo)
-            kw["polling_enabled"] = Const(pen)
-            ps = run_method(p, f, self_val=Term("param", "self", hint=bc), args=[], kwargs=kw)
-            for pa in ps:
-                pa.cfg = (tmo, pen)
-            paths.extend(ps)
-    ctx.paths_enumerated += len(paths)
-    bad = False
+    ex = _event(p, "ValueUpdate", "x")
+    other_dev = _event(p, "ValueUpdate", "x", device="OTHER", label="event:otherdevice:x")
+    other_vec = _event(p, "ValueUpdate", "x", vector="OTHER", label="event:othervector:x")
+    other_el = _event(p, "ValueUpdate", "x", element="OTHER", label="event:otherelement:x")
+    flt = {"device": Const("D"), "vector": Const("V"), "element": Const("E")}
+    bad_excl = bad_rel = bad_to = bad_poll = False
     n = 0
-    for pa in paths:
-        tmo, pen = pa.cfg
-        waits = [e for e in pa.events if e.kind == "await" and "wait()" in show(e.data["value"])]
-        if not waits:
-            continue
-        n += 1
-        w = waits[0]
-        on = pa.calls(method="onevent")
-        rm = pa.calls(method="rmonevent")
-        if len(on) != 1 or on[0].idx > w.idx:
-            ctx.violated("C17.RELEASE", f.short, "the temporary callback is not registered exactly once before waiting", fi=f, text="register")
-            bad = True
-            continue
-        kw = on[0].data["kwargs"]
-        okf = all(show(kw.get(k, Const(None))) == k for k in ("device", "vector", "element", "event_type")) and isinstance(kw.get("callback"), Fn) and kw["callback"].fi.name == "cb"
-        if not okf:
-            ctx.violated("C17.RELEASE", f.short, f"the temporary callback is not registered with the caller's filters and the release closure: {[(k, show(v)) for k, v in kw.items()]}", fi=f, text="register-filters")
-            bad = True
-        good_rm = [e for e in rm if e.idx > w.idx and (e.data["kwargs"].get("uuid") is on[0].data["term"] or (e.data["args"] and e.data["args"][0] is on[0].data["term"]))]
-        if len(good_rm) != 1 or len(rm) != 1:
-            ctx.violated("C17.RELEASE", f.short, "after the wait the temporary callback is not removed (exactly once) with the uuid returned by this call's onevent: it stays registered", fi=f, text="release")
-            bad = True
-        # exclusivity
-        tests = [e for e in pa.assumes() if show(e.data["cond"]).endswith(".timeout") and e.idx > w.idx]
-        if not tests:
-            ctx.violated("C17.EXCL", f.short, "the outcome does not depend on result.timeout", fi=f, text="no-timeout-test")
-            bad = True
-            continue
-        if tests[0].data["truth"]:
-            if pa.outcome != "raise":
-                ctx.violated("C17.EXCL", f.short, "a timed-out wait does not raise", fi=f, text="timeout-no-raise")
-                bad = True
-        else:
-            if pa.outcome != "return" or not show(pa.value).endswith(".event"):
-                ctx.violated("C17.EXCL", f.short, f"a completed wait returns {show(pa.value)[:40] if pa.value is not None else None} instead of the recorded event", fi=f, text="return-value")
-                bad = True
-        if good_rm and any(e.kind == "raise" and e.idx < good_rm[0].idx and e.idx > w.idx for e in pa.events):
-            ctx.violated("C17.RELEASE", f.short, "the wait raises before the temporary callback is removed", fi=f, text="raise-before-release")
-            bad = True
-        # tasks
-        tasks = pa.calls(method="create_task")
-        poll_tasks = [e for e in tasks if e.data["args"] and isinstance(e.data["args"][0], Term) and isinstance(e.data["args"][0].args[0], Fn) and e.data["args"][0].args[0].fi.name == "poll"]
-        to_tasks = [e for e in tasks if e.data["args"] and isinstance(e.data["args"][0], Term) and isinstance(e.data["args"][0].args[0], Fn) and e.data["args"][0].args[0].fi.name == "timeout_check"]
-        if (len(poll_tasks) == 1) != pen or len(poll_tasks) > 1:
-            ctx.violated("C17.POLL", f.short, f"polling_enabled={pen} but {len(poll_tasks)} polling tasks are created", fi=f, text=f"poll-task:{pen}:{len(poll_tasks)}")
-            bad = True
-        want_to = tmo is not None
-        if (len(to_tasks) == 1) != want_to or len(to_tasks) > 1:
-            ctx.violated("C17.TIMEOUT", f.short, f"timeout={tmo!r} but {len(to_tasks)} timeout tasks are created", fi=f, text=f"timeout-task:{want_to}:{len(to_tasks)}")
-            bad = True
-        if any(e.idx > w.idx for e in tasks):
-            ctx.violated("C17.TIMEOUT", f.short, "a task is created after the wait", fi=f, text="task-after-wait")
-            bad = True
-    if n == 0:
-        ctx.undecided("C17.RELEASE", f.short, "no path through 'await lock.wait()' explored", fi=f)
-    elif not bad:
-        ctx.holds("C17.RELEASE", f.short, f"{n} paths: registered before the wait, removed by uuid after it, before raise/return", fi=f)
-        ctx.holds("C17.EXCL", f.short, "raise iff result.timeout, else return result.event", fi=f)
-        ctx.holds("C17.TIMEOUT", f.short, "timeout task iff a (positive) timeout was given; polling task iff polling_enabled (timeout in {None, 5, 0.5} x polling in {T,F})", fi=f)
+    for tmo in (None, 5, 0.5, 0):
+        for pen in (True, False):
+            kw = dict(flt, expect=Const("x"), polling_enabled=Const(pen), polling_delay=Const(2), polling_interval=Const(3))
+            if tmo is not None:
+                kw["timeout"] = Const(tmo)
+            want_to = tmo is not None and tmo > 0
+            # nothing happens: the waiter stays blocked, its callback registered, tasks as configured
+            r = _one(ctx, "C17.EXCL", f, simulate(p, kw, []), f"timeout={tmo} polling={pen} nothing happens")
+            if r is None:
+                bad_excl = True
+                continue
+            n += 1
+            if r["outcome"] != "blocked":
+                ctx.violated("C17.EXCL", f.short, f"with no event and no timeout firing the wait ends ({r['outcome']}) instead of waiting [timeout={tmo} polling={pen}]", fi=f, text=f"neither:{tmo}:{pen}")
+                bad_excl = True
+                continue
+            ntask = len(r["tasks"])
+            if ntask != int(pen) + int(want_to):
+                which = "C17.POLL" if (ntask - int(want_to)) != int(pen) and not want_to else "C17.TIMEOUT"
+                ctx.violated(which, f.short, f"timeout={tmo!r} polling_enabled={pen}: {ntask} helper tasks are created, expected {int(pen)} polling + {int(want_to)} timeout", fi=f, text=f"tasks:{tmo}:{pen}:{ntask}")
+                bad_to = True
+                continue
+            if len(r["callbacks"] or []) != 1:
+                ctx.violated("C17.RELEASE", f.short, f"while waiting {len(r['callbacks'] or [])} callbacks are registered, expected exactly the wait's own", fi=f, text="register")
+                bad_rel = True
+            # events for another device / property / element do not release; the matching one does and cleans up
+            for label, script, want in (("events for other devices, properties and elements only", [("event", other_dev), ("event", other_vec), ("event", other_el)], "blocked"),
+                                        ("foreign events, then the awaited one", [("event", other_dev), ("event", ex)], "return")):
+                r2 = _one(ctx, "C17.RELEASE", f, simulate(p, kw, script), label)
+                if r2 is None:
+                    bad_rel = True
+                    continue
+                if r2["outcome"] != want or (want == "return" and r2["value"] is not ex):
+                    ctx.violated("C17.RELEASE", f.short, f"[{label}; timeout={tmo} polling={pen}] the wait ends with {r2['outcome']} {show(r2['value'])[:40] if r2['value'] is not None else ''}, expected {want}: the wait is not registered with the caller's device / vector / element filters", fi=f, text=f"filters:{want}")
+                    bad_rel = True
+                if want == "return" and r2["callbacks"]:
+                    ctx.violated("C17.RELEASE", f.short, f"after the wait completed {len(r2['callbacks'])} callback(s) are still registered: the temporary callback leaks and keeps firing", fi=f, text="leak:return")
+                    bad_rel = True
+            if want_to:
+                ti = int(pen)  # tasks are created in program order: the scenario finds the timeout task as the one that is not the poller
+                for cand in range(ntask):
+                    r3s = simulate(p, kw, [("task", cand)], poll_flags=(0, [True]) if pen else None)
+                    if len(r3s) == 1 and _is_timeout(r3s[0]):
+                        ti = cand
+                r3 = _one(ctx, "C17.TIMEOUT", f, simulate(p, kw, [("task", ti)], poll_flags=(1 - ti, [True]) if pen else None), "the timeout fires")
+                if r3 is None:
+                    bad_to = True
+                    continue
+                if not _is_timeout(r3):
+                    ctx.violated("C17.TIMEOUT", f.short, f"when the timeout task runs and nothing else happened the wait ends with {r3['outcome']} {show(r3['value'])[:40] if r3['value'] is not None else ''} instead of failing with a timeout [timeout={tmo} polling={pen}]", fi=f, text=f"timeout-no-raise:{tmo}")
+                    bad_to = True
+                else:
+                    sl = [show(d) for who, d in r3["sleeps"] if who == ti]
+                    if sl != [repr(tmo)]:
+                        ctx.violated("C17.TIMEOUT", f.short, f"the timeout task sleeps {sl}, expected exactly [{tmo!r}] before acting", fi=f, text="sleep")
+                        bad_to = True
+                    if r3["callbacks"]:
+                        ctx.violated("C17.RELEASE", f.short, "after a timeout the temporary callback is still registered", fi=f, text="leak:timeout")
+                        bad_rel = True
+    if not bad_excl:
+        ctx.holds("C17.EXCL", f.short, f"{n} configurations: blocked while nothing happens; an event returns, a timeout raises, never both", fi=f)
+    if not bad_rel:
+        ctx.holds("C17.RELEASE", f.short, "registered with the caller's filters while waiting; nothing left registered after completion", fi=f)
+    if not bad_to:
+        ctx.holds("C17.TIMEOUT", f.short, "timeout task iff a positive timeout was given; it sleeps exactly the timeout (timeout in {None, 5, 0.5, 0} x polling in {T,F})", fi=f)
 
 
 def rule_poll(ctx):
     p = ctx.p
     bc, f = _wfe(p)
-    poll = f.nested["poll"]
     bad = False
-    for dev, vec in itertools.product((None, "D"), (None, "V")):
-        def run(it: Interp):
-            client = Obj(bc, {}, label="client")
-            lock = Obj(None, label="<lock>")
-            env = {"self": client, "lock": lock, "device": Const(dev), "vector": Const(vec), "polling_delay": Term("param", "polling_delay"), "polling_interval": Term("param", "polling_interval")}
-            return it.run_function(Fn(poll, None, closure=_closure(p, f, **env)), [], {})
-
-        paths = explore(p, run, {"inline": lambda fi, node: False, "max_while": 2})
-        ctx.paths_enumerated += len(paths)
-        for pa in paths:
-            seq = []
-            for e in pa.events:
-                if e.kind == "await" and "sleep(" in show(e.data["value"]):
-                    seq.append("sleep:" + show(e.data["value"]).split("sleep(")[1].rstrip(")"))
-                elif e.kind == "call" and is_call(e.data["term"], method="send_message"):
-                    a = e.data["args"][0] if e.data["args"] else None
-                    kw = dict((k, show(v)) for k, v in a.args[2]) if isinstance(a, Term) and a.op == "call" and isinstance(a.args[0], Cls) and a.args[0].ci.name == "GetProperties" else None
-                    seq.append(("send", kw))
-                elif e.kind == "assume" and "is_set()" in show(e.data["cond"]):
-                    seq.append("set" if e.data["truth"] else "unset")
-            if not seq or seq[0] != "sleep:polling_delay":
-                ctx.violated("C17.POLL", poll.short, f"the polling coroutine does not start by sleeping polling_delay: {seq[:3]}", fi=poll, text="delay-first")
+    n = 0
+    for dev, vec in (("D", "V"), ("D", None), (None, None)):
+        for flags in ([True], [False, True], [False, False, False, True]):
+            kw = {"expect": Const("x"), "polling_enabled": Const(True), "polling_delay": Const(2), "polling_interval": Const(3)}
+            if dev is not None:
+                kw["device"] = Const(dev)
+            if vec is not None:
+                kw["vector"] = Const(vec)
+            rs = simulate(p, kw, [("task", 0)], poll_flags=(0, flags))
+            r = _one(ctx, "C17.POLL", f, rs, f"polling device={dev} vector={vec} flags={flags}")
+            if r is None:
                 bad = True
                 continue
-            i = 1
-            okseq = True
-            while i < len(seq):
-                if seq[i] == "set":
-                    okseq = okseq and i == len(seq) - 1
-                    break
-                if seq[i] != "unset" or i + 2 >= len(seq) + 1:
-                    okseq = False
-                    break
-                if i + 1 < len(seq):
-                    s = seq[i + 1]
-                    if not (isinstance(s, tuple) and s[0] == "send"):
-                        okseq = False
-                        break
-                    kw = s[1]
-                    want = {"version": repr("1.7")}
-                    if dev:
-                        want["device"] = repr(dev)
-                    if vec:
-                        want["name"] = repr(vec)
-                    if kw is None or {k: v for k, v in kw.items() if k != "version"} != {k: v for k, v in want.items() if k != "version"} or "version" not in kw:
-                        ctx.violated("C17.POLL", poll.short, f"the poll request is getProperties({kw}), expected device={dev!r} name={vec!r}", fi=poll, text=f"request:{dev}:{vec}")
-                        bad = True
-                if i + 2 < len(seq) and seq[i + 2] != "sleep:polling_interval":
-                    okseq = False
-                    break
-                i += 3
-            if not okseq and pa.outcome != "truncated":
-                ctx.violated("C17.POLL", poll.short, f"the polling sequence is {seq}, expected delay, then repeated (flag unset, send, sleep interval) until the flag is set", fi=poll, text="sequence")
+            n += 1
+            if len(r["tasks"]) != 1:
+                ctx.violated("C17.POLL", f.short, f"polling enabled without timeout creates {len(r['tasks'])} tasks", fi=f, text="poll-task")
                 bad = True
-            if pa.outcome == "truncated" and not okseq:
-                # a truncated (loop-bound) path must still be a prefix of the pattern
-                pref = all((seq[j] == "unset") if (j - 1) % 3 == 0 else ((isinstance(seq[j], tuple)) if (j - 1) % 3 == 1 else seq[j] == "sleep:polling_interval") for j in range(1, len(seq)))
-                if not pref:
-                    ctx.violated("C17.POLL", poll.short, f"the polling sequence {seq} is not a prefix of (flag unset, send, sleep interval)*", fi=poll, text="sequence-prefix")
+                continue
+            want_iter = len(flags) - 1
+            sl = [show(d) for who, d in r["sleeps"] if who == 0]
+            want_sl = ["2"] + ["3"] * want_iter
+            sends = r["sends"]
+            if sl != want_sl or len(sends) != want_iter:
+                ctx.violated("C17.POLL", f.short, f"with the completion flag reading {flags} the polling task sleeps {sl} and sends {len(sends)} requests, expected sleeps {want_sl} (delay first, then the interval after every request) and {want_iter} requests: it must stop as soon as the wait has completed", fi=f, text=f"sequence:{len(flags)}", witness=str(flags))
+                bad = True
+                continue
+            for e in sends:
+                m = e.data["args"][0] if e.data["args"] else None
+                okm = isinstance(m, Term) and m.op == "call" and isinstance(m.args[0], Cls) and m.args[0].ci.name == "GetProperties"
+                kwm = dict(m.args[2]) if okm else {}
+                gd, gn = kwm.get("device", Const(None)), kwm.get("name", Const(None))
+                if not okm or show(gd) != repr(dev) or show(gn) != repr(vec) or "version" not in kwm:
+                    ctx.violated("C17.POLL", f.short, f"the poll request is {show(m)[:80] if m is not None else None}, expected getProperties(version, device={dev!r}, name={vec!r})", fi=f, text=f"request:{dev}:{vec}")
                     bad = True
+    ctx.counters["C17.POLL:scenarios"] = n
     if not bad:
-        ctx.holds("C17.POLL", poll.short, "sleep(polling_delay); while flag unset: send getProperties(device, name); sleep(polling_interval)", fi=poll)
+        ctx.holds("C17.POLL", f.short, f"{n} scenarios: sleep(polling_delay); while the wait is pending: send getProperties(device, name); sleep(polling_interval)", fi=f)
 
 
-# a wait is released by a callback in the client's registry: a raising callback registered earlier must not keep the event from it
+# a raising callback of another waiter/listener must not keep the event from this waiter; filters are the registry's
 IMPORTS = [('C16', 'C16.CONTAIN'), ('C16', 'C16.FILTER'), ('C16', 'C16.RM')]
 
 RULES = [
-    ("C17.COND", rule_cond, "release condition table; result stored only while the completion flag is unset (callback)"),
-    ("C17.FLAG", rule_flag_timeout, "timeout recorded only while the flag is unset; sole writer of result.timeout"),
-    ("C17.RELEASE", rule_main, "temporary callback registered before and removed after the wait; raise iff timeout; task creation guards"),
-    ("C17.POLL", rule_poll, "polling coroutine: delay first, then (unset, send, sleep interval)* until set"),
+    ("C17.COND", rule_cond, "released exactly when the condition holds (3 kinds x 3 event kinds x equal/different), returning that event"),
+    ("C17.FLAG", rule_flag, "first completion wins: later events / timeouts do not change the outcome"),
+    ("C17.EXCL", rule_main, "blocked while nothing happens; event -> return, timeout -> raise; registration with the caller's filters; nothing left registered; tasks as configured"),
+    ("C17.POLL", rule_poll, "polling: delay, then (request, interval) while pending; stops when completed; request built from the filters"),
 ]
